@@ -673,6 +673,67 @@ def sibling_guards(run, rule, modules, min_major=4):
     return n
 
 
+def sibling_param_defaults(run, rule, modules):
+    """Sibling presence: where at least four functions of an area resolve an optional parameter with 'p = p or DEFAULT' (the same DEFAULT), a
+    sibling that takes the same parameter '=None', uses it, and neither resolves it that way nor tests it for None passes None on -- the
+    call with the argument omitted fails (or goes elsewhere) where the siblings fall back on the default."""
+    have, lack = {}, {}
+    for mi in modules:
+        fns = [(n, f) for n, f in dict.items(mi.functions)] + \
+              [('%s.%s' % (cn, m.name), m) for cn, c in mi.classes.items() for m in c.body if isinstance(m, ast.FunctionDef)]
+        for fname, f in fns:
+            a = f.args
+            pos = a.posonlyargs + a.args
+            ds = dict(zip([x.arg for x in pos[len(pos) - len(a.defaults):]], a.defaults))
+            ds.update({x.arg: d for x, d in zip(a.kwonlyargs, a.kw_defaults) if d is not None})
+            for p, d in ds.items():
+                if not (isinstance(d, ast.Constant) and d.value is None):
+                    continue
+                resolved = None
+                tested = False
+                used = False
+                for st in ast.walk(f):
+                    if isinstance(st, ast.Assign) and len(st.targets) == 1 and isinstance(st.targets[0], ast.Name) and st.targets[0].id == p \
+                            and isinstance(st.value, ast.BoolOp) and isinstance(st.value.op, ast.Or) and len(st.value.values) == 2 \
+                            and isinstance(st.value.values[0], ast.Name) and st.value.values[0].id == p:
+                        resolved = norm(st.value.values[1])
+                    elif isinstance(st, ast.Compare) and isinstance(st.left, ast.Name) and st.left.id == p and norm(st.comparators[0]) == 'None':
+                        tested = True
+                    elif isinstance(st, (ast.If, ast.IfExp)) and isinstance(st.test, ast.Name) and st.test.id == p:
+                        tested = True
+                    elif isinstance(st, ast.Assign) and any(isinstance(t, ast.Name) and t.id == p for t in st.targets):
+                        tested = True           # rebound some other way
+                    elif isinstance(st, ast.Name) and st.id == p and isinstance(st.ctx, ast.Load):
+                        used = True
+                if resolved is not None:
+                    have.setdefault((p, resolved), []).append((mi, fname, f))
+                elif used and not tested:
+                    lack.setdefault(p, []).append((mi, fname, f))
+    n = 0
+    for (p, d), sites in sorted(have.items()):
+        if len(sites) < 4:
+            continue
+        n += 1
+        run.subject(rule)
+        run.ok(rule, "optional '%s' resolved with '%s'" % (p, d), '%d functions' % len(sites), sample=False)
+        for mi, fname, f in lack.get(p, []):
+            # forwarding the parameter unchanged to a sibling that resolves it is fine
+            fwd = [c for c in ast.walk(f) if isinstance(c, ast.Call) and any(isinstance(k.value, ast.Name) and k.value.id == p for k in c.keywords)
+                   or isinstance(c, ast.Call) and any(isinstance(x, ast.Name) and x.id == p for x in c.args)]
+            other = [x for x in ast.walk(f) if isinstance(x, ast.Name) and x.id == p and isinstance(x.ctx, ast.Load)]
+            fwd_names = sum(sum(1 for k in c.keywords if isinstance(k.value, ast.Name) and k.value.id == p) + sum(1 for x in c.args if isinstance(x, ast.Name) and x.id == p)
+                            for c in ast.walk(f) if isinstance(c, ast.Call) and (dotted(c.func) or '').split('.')[-1] not in ('join',))
+            joined = any(isinstance(c, ast.Call) and (dotted(c.func) or '').endswith('path.join') and any(isinstance(x, ast.Name) and x.id == p for x in c.args) for c in ast.walk(f))
+            if not joined:
+                continue
+            n += 1
+            run.subject(rule)
+            run.fail(rule, '%s|%s|unresolved-default:%s' % (mi.name, fname, p), mi.relpath, f.lineno,
+                     "%s takes %s=None and builds a path from it without the '%s = %s or %s' that its %d siblings start with: called without the "
+                     "argument it joins None into the path instead of using the default" % (fname, p, p, p, d, len(sites)))
+    return n
+
+
 def last_call_memos(run, rule, mi, name, fn):
     """'global _last, _value; if arg is not _last: _value = f(arg); _last = arg' -- a one-entry memo keyed by the *identity* of an array:
     the array can be edited in place between two calls, the identity stays, the memoised value is stale."""
@@ -846,6 +907,7 @@ def check_caches(run, modules, rule, functions=None, prog=None, zero_is_a_value=
     if functions is None:
         try:
             nstores += sibling_guards(run, rule, list(modules))
+            nstores += sibling_param_defaults(run, rule, list(modules))
         except RecursionError:
             pass
     if prog is not None:
